@@ -57,6 +57,9 @@ POOL = {
     "A2": ["t/a", [["string", "s"], ["varint", "n"], ["string", "extra"]]],
     "D": ["t/d", [["boolean", "f"], ["string", "q"], ["varint", "n"]]],
     "T": ["t/t", [["string[]", "tags"], ["varint", "n"]]],
+    # an identifier twin pair: same name, same 32-bit hash (concatenation ambiguity), different fields
+    "P": ["t/amc", [["uint32", "a"], ["string", "b"]]],
+    "Q": ["t/amc", [["string", "auint32b"]]],
 }
 
 # selector source, python predicate over the dict of the record's own (non-reserved) fields
@@ -94,7 +97,7 @@ def wall_cap(tier):
 
 # -- generation ---------------------------------------------------------------------------------
 def gen_rec(rng, i, only=None):
-    k = only or rng.choice(["A", "A", "B", "C", "A2", "D", "T"])
+    k = only or rng.choice(["A", "A", "B", "C", "A2", "D", "T", "P", "Q"])
     t = lambda h: {"$dt": (G + _dt.timedelta(hours=h)).replace(tzinfo=None).isoformat(), "off": 0}  # noqa: E731
     n = rng.choice([0, 1, 2, 3, 4])  # never None: ordering comparisons with None are selector semantics (C07), not slicing
     if k == "A":
@@ -105,6 +108,10 @@ def gen_rec(rng, i, only=None):
         vals = [rng.choice(["x", "y"]), t(0), t(24 + i)]
     elif k == "A2":
         vals = [rng.choice(["x", "z"]), n if n is not None else 2, rng.choice(["e1", "e2"])]
+    elif k == "P":
+        vals = [n, rng.choice(["x", "y"])]
+    elif k == "Q":
+        vals = [rng.choice(["x", "z"])]
     elif k == "T":
         vals = [{"$l": [rng.choice(["red", "green", "blue"]) for _ in range(rng.choice([0, 1, 2, 3]))]}, n]
     else:
@@ -781,9 +788,12 @@ def check_output(w, plan, opts, mode, out, so, expected_records, exact, pred, ad
             add(_viol("C16.records", "-l: 'Processed %s records', expected %d [rdump %s; sources %s]" % (n, len(exp0), " ".join(optargv), ",".join(kinds)), {"mode": mode}))
         # descriptors listed once each
         listed = re.findall(r"^# <RecordDescriptor ([^,]+), hash=([0-9a-f]+)>", text, re.M)
+        from ..gen import desc_hash
+
         want = []
         for e in exp0:
-            k = (e["name"], tuple((t, f) for f, t, v in e["fields"]))
+            # rdump lists a descriptor once per distinct 32-bit descriptor hash
+            k = desc_hash(e["name"], [[t, f] for f, t, v in e["fields"]])
             if k not in want:
                 want.append(k)
         if exact_len(exps) and len(listed) != len(want):
